@@ -1,5 +1,5 @@
-CONSTANTS Family = "upper"  MaxOps = 1  Bug = ""  Emit = TRUE
-CONSTANT Codes <- MCCodesQuick
+CONSTANTS Family = "upper"  MaxOps = 1  Bug = ""  Emit = TRUE  Wide = TRUE
+CONSTANT Codes <- MCCodesTwo
 INIT Init
 NEXT Next
 INVARIANT NoMismatch
